@@ -411,3 +411,121 @@ def region_from_edge(fn, dst, stop=()):
         seen.add(x)
         st.extend(fn.succ(x))
     return seen
+
+
+# ---------------------------------------------------------------------------
+# condition descriptors and dominating guards
+
+def desc_operand(fn, o, depth=0):
+    """structural description of where an operand's value comes from"""
+    if depth > 10 or o is None:
+        return ("?",)
+    if o.get("const"):
+        if "int" in o:
+            return ("const", int(o["int"]))
+        if "uneval" in o:
+            return ("constpath", o["uneval"])
+        return ("constdbg", o.get("dbg", ""))
+    p = op_place(o)
+    if p is None:
+        return ("?",)
+    return desc_place(fn, p, depth)
+
+
+def desc_place(fn, p, depth=0):
+    fields = [e[2] for e in p["p"] if e[0] == "field"]
+    variants = [e[1] for e in p["p"] if e[0] == "downcast"]
+    l = p["l"]
+    if fields or variants:
+        base = desc_local(fn, l, depth + 1)
+        return ("field", base, tuple(fields), tuple(variants))
+    return desc_local(fn, l, depth + 1)
+
+
+def desc_local(fn, l, depth=0):
+    if depth > 10:
+        return ("?",)
+    if 1 <= l <= fn.argc:
+        return ("arg", l)
+    sd = fn.single_def(l)
+    if sd is None:
+        return ("local", l)
+    if sd[0] == "call":
+        t = sd[1]
+        return ("call", lastseg(t["f"]), tuple(desc_operand(fn, a, depth + 1) for a in t["args"][:3]), t["f"])
+    r = sd[1]
+    k = r["k"]
+    if k == "use":
+        return desc_operand(fn, r["a"], depth + 1)
+    if k in ("ref", "rawptr"):
+        return desc_place(fn, r["a"], depth + 1)
+    if k == "cast":
+        return ("cast", desc_operand(fn, r["a"], depth + 1), r.get("ty"))
+    if k == "bin":
+        return ("bin", r["op"], desc_operand(fn, r["a"], depth + 1), desc_operand(fn, r["b"], depth + 1))
+    if k == "un":
+        return ("un", r["op"], desc_operand(fn, r["a"], depth + 1))
+    if k == "discr":
+        return ("discr", desc_place(fn, r["a"], depth + 1))
+    if k == "agg":
+        return ("agg", r["adt"], tuple(desc_operand(fn, a, depth + 1) for a in r["ops"][:3]))
+    return ("?",)
+
+
+def dominating_guards(F, fn, b):
+    """[(switch_block, desc, outcome)] for every switch one of whose edges dominates b.
+    outcome: True/False for bool switches, variant name (or raw value) for discr switches."""
+    out = []
+    for w in sorted(fn.dom.get(b, ())):
+        t = fn.blocks[w]["t"]
+        if t["k"] != "switch" or w == b:
+            continue
+        bydst = {}
+        for v, dst in t["targets"]:
+            bydst.setdefault(dst, []).append(v)
+        bydst.setdefault(t["otherwise"], []).append(None)
+        for dst, vals in bydst.items():
+            if not fn.edge_dominates(w, dst, b):
+                continue
+            l = op_local(t["on"])
+            d = desc_local(fn, l) if l is not None else ("?",)
+            if t["ty"] == "bool":
+                if len(vals) != 1:
+                    continue
+                v = vals[0]
+                truth = (v != "0") if v is not None else True
+                while d[0] == "un" and d[1] == "Not":
+                    d = d[2]
+                    truth = not truth
+                out.append((w, d, truth))
+                continue
+            sv = switch_variants(F, fn, w)
+            names = sv[1] if sv and sv[1] else {}
+            listed_all = [x for x, _ in t["targets"]]
+            outs = []
+            for v in vals:
+                if v is not None:
+                    outs.append(names.get(v, v))
+                else:
+                    rest = [n for k, n in names.items() if k not in listed_all]
+                    if names and rest:
+                        outs.extend(rest)
+                    elif not names:
+                        outs.append(("not", tuple(listed_all)))
+            if len(outs) == 1:
+                out.append((w, d, outs[0]))
+            elif outs:
+                out.append((w, d, ("in", tuple(outs))))
+    return out
+
+
+def desc_mentions_field(d, field):
+    if not isinstance(d, tuple):
+        return False
+    if d and d[0] == "field" and field in d[2]:
+        return True
+    return any(desc_mentions_field(x, field) for x in d if isinstance(x, tuple))
+
+
+def desc_call_name(d):
+    return d[1] if isinstance(d, tuple) and d and d[0] == "call" else None
